@@ -21,6 +21,18 @@ CHECKS = {
         ],
         **tiers(20000, 200000),
     },
+    "C03": {
+        "pkg": "./checks/c03",
+        "level": "exploration",
+        "assumptions": [
+            "JavaScript semantics = V8 (rogchap.com/v8go v0.9.0) evaluating each document's script elements and then its handler attributes in one context",
+            "emitted bytes are decoded to UTF-8 with per-byte U+FFFD substitution before evaluation, as a browser's decoder does",
+            "NaN/Inf and channels have no JSON encoding and are not generated; templ.JSExpression is a documented raw pass-through and not generated",
+            "function names given to JSFuncCall are the author's input: only 'cannot smuggle code, cannot break markup' is required of odd names",
+        ],
+        "quick": {"rapid_checks": 12000, "timeout": 900},
+        "thorough": {"rapid_checks": 120000, "timeout": 3400, "shards": 16},
+    },
     "C04": {
         "pkg": "./checks/c04",
         "level": "exploration",
